@@ -8,23 +8,23 @@ E1NOTE = "trusts the reference interpreter refjet (mc/internal/refjet; shares no
 E1TECH = "bounded exhaustive enumeration of generator-ASTs, each printed to jet source, executed on the real engine and compared with the reference interpreter's trace"
 checks = {
  "C01": dict(engine="E1", ref="6/C01", technique=E1TECH,
-   text="Every context of <=2 (thorough 3) nested frames (if/else/range/range-else/block/yield/content/include/try/catch/exec/includeIfExists) x 3 outer shapes (plain, root layout of an extends chain, leaf block rendered by the root's yield) x 27 values (incl. numeric/bool kinds with String()/Error() methods) x 28 action forms (plain, piped function, html, 5 safe writers in 3 call forms and in 2 multi-argument forms whose middle argument executes a template using another safe writer) x 4 escapers is rendered by jet and must equal, byte for byte, literal text ++ E(printed value). Exhaustive inside that product.", note=E1NOTE),
+   text="Every context of <=2 (thorough 3) nested frames (if/else/range/range-else/block/yield/content/include/try/catch/exec/includeIfExists, after / in the catch body of a try abandoned inside a safe writer) x 3 outer shapes (plain, root layout of an extends chain, leaf block rendered by the root's yield) x 27 values (incl. numeric/bool kinds with String()/Error() methods) x 28 action forms (plain, piped function, html, 5 safe writers in 3 call forms and in 2 multi-argument forms whose middle argument executes a template using another safe writer) x 4 escapers is rendered by jet and must equal, byte for byte, literal text ++ E(printed value). Exhaustive inside that product.", note=E1NOTE),
  "C03": dict(engine="E1", ref="6/C03", technique="bounded exhaustive enumeration of atom sequences (text/action/comment/import) under 7 delimiter configurations, executed on the real engine and compared with an atom-level reference renderer",
-   text="Every sequence of <=4 (thorough 5) atoms over ~28 letters (text incl. lone delimiter bytes, all whitespace mixes, runes ending in 0x85/0xA0, \\v, actions in 7 trim/spacing variants, 4 comment kinds) under 7 delimiter/comment configurations, plus headers with import clauses, must render exactly what a 40-line reference over the atom list renders; ambiguous concatenations are detected by an independent scan and skipped.", note="trusts the atom-level reference (mc/internal/props/c03.go c03Ref) and the ambiguity scan; delimiter configurations are the 7 listed ones"),
+   text="Every sequence of <=4 (thorough 5) atoms over ~28 letters (text incl. lone delimiter bytes, all whitespace mixes, runes ending in 0x85/0xA0, \\v, actions in 7 trim/spacing variants, 4 comment bodies plus one per overlap of the comment markers) under 7 delimiter/comment configurations, plus headers with import clauses, must render exactly what a 40-line reference over the atom list renders; ambiguous concatenations are detected by an independent scan and skipped.", note="trusts the atom-level reference (mc/internal/props/c03.go c03Ref) and the ambiguity scan; delimiter configurations are the 7 listed ones"),
  "C04": dict(engine="E1", ref="6/C04", technique=E1TECH,
-   text="All single-operator expressions over a 20-operand alphabet, all two-operator trees (13 binary, 3 unary, ternary) over 8 operands, all three-binary-operator trees over one (thorough two) operator(s) per precedence level, every operator x 10 left x 6 right operand shapes tight vs spaced, and all depth-2 trees over the lazy connectives with side-effecting probes (call log compared); each printed with minimal and with full parentheses.", note=E1NOTE+"; mixed-kind operations the statement does not define are skipped"),
+   text="All single-operator expressions over a 25-operand alphabet (incl. integers beyond 2^53, negative integers and negative non-integral floats), all two-operator trees (13 binary, 3 unary, ternary) over 8 operands, all three-binary-operator trees over one (thorough two) operator(s) per precedence level, every operator x 10 left x 6 right operand shapes tight vs spaced, and all depth-2 trees over the lazy connectives with side-effecting probes (call log compared); each printed with minimal and with full parentheses.", note=E1NOTE+"; mixed-kind operations the statement does not define are skipped"),
  "C05": dict(engine="E1", ref="6/C05", technique=E1TECH,
    text="All if/else-if/else chains up to two else-if arms over a 31-value condition alphabet, and every nesting of depth <=2 (thorough 3) of if and range units over 21 rangeables (slices, arrays, pointers, maps, channels, ints(), index-providing and index-less custom rangers, nil, non-rangeable) x 6 variable forms x else.", note=E1NOTE+"; truthiness of zero-valued structs/arrays is treated as unspecified; 2-entry maps accept either iteration order"),
  "C07": dict(engine="E1", ref="6/C07", technique=E1TECH,
-   text="All statement sequences of <=3 over 10 atoms (:=, =, multi-assignment, discard, reads of x, y and '.') inside each of 20 frames (if, if-let, 5 range forms, block/yield/include with and without context and parameters, yield-with-content incl. content shown with its own context / twice / inside a range); v,ok lookup forms with absent keys;, nested to depth 2 (thorough 3), under 4 variable origins (local, VarMap, global, both); the caller's VarMap after Execute is compared too; loop-variable capture over every ranger kind.", note=E1NOTE),
+   text="All statement sequences of <=3 over 10 atoms (:=, =, multi-assignment, discard, reads of x, y and '.') inside each of 21 frames (if, if-let, 5 range forms, block/yield/include with and without context and parameters, a parameter-less block yielded with a named argument, yield-with-content incl. content shown with its own context / twice / inside a range); v,ok lookup forms with absent keys;, nested to depth 2 (thorough 3), under 4 variable origins (local, VarMap, global, both); the caller's VarMap after Execute is compared too; loop-variable capture over every ranger kind.", note=E1NOTE),
  "C08": dict(engine="E1", ref="6/C08", technique=E1TECH,
-   text="All template sets with an extends chain of 1-3 and 0-2 imports in which every non-root template defines any subset of two block names (plain, conditional or nested placement) x 8 positions of the yield/definition site in the root layout; 3-parameter blocks with every default pattern x every ordered subset of named arguments x 3 block homes; content nesting, recursion and caller-scope variants.", note=E1NOTE+"; positional yield arguments, parameters with neither argument nor default and content-less yields of content-showing blocks are unspecified"),
+   text="All template sets with an extends chain of 1-3 and 0-2 imports in which every non-root template defines any subset of two block names (plain, conditional or nested placement) x 8 positions of the yield/definition site in the root layout; 3-parameter blocks with every default pattern x every ordered subset of named arguments x 3 block homes; content nesting, recursion and caller-scope variants; sibling sequences of <=3 over 7 items (wrappers with/without parameters and content, in-place definitions with/without default content, yield content) at top level and inside an outer block yielded with content.", note=E1NOTE+"; positional yield arguments, parameters with neither argument nor default and content-less yields of content-showing blocks are unspecified"),
  "C09": dict(engine="E1", ref="6/C09", technique=E1TECH,
-   text="Call kind (include, exec, includeIfExists as action and as condition) x call site nested <=2 deep over 7 frames x context (none, value, nil-valued) x 5 name forms x 3 referrer depths x 26 callee shapes (return at every position, return followed by each statement kind, extends chains 1-3, declarations, caller blocks, failing, missing); after the call the caller probes its variables, context and blocks.", note=E1NOTE+"; a range reached after a return, and a return inside an included template while the includer is inside a range, are unspecified"),
+   text="Call kind (include, exec, includeIfExists as action and as condition) x call site nested <=2 deep over 7 frames x context (none, value, nil-valued) x 5 name forms x 3 referrer depths x 29 callee shapes (return at every position and through include / includeIfExists / yield given a context, return followed by each statement kind, extends chains 1-3, declarations, caller blocks, failing, missing); after the call the caller probes its variables, context and blocks.", note=E1NOTE+"; a range reached after a return, and a return inside an included template while the includer is inside a range, ; a return below includeIfExists while an exec is in progress is unspecified"),
  "C12": dict(engine="E1", ref="6/C12", technique=E1TECH,
    text="~85 failure classes x 4 files (executed, included, imported library block, root layout) x 7 line layouts x 7 nestings: Execute must return an error (no panic), the writer must hold exactly the reference prefix, and for failures jet detects itself the message must name the failing file and a line inside the failing action's opening delimiters.", note=E1NOTE+"; the message format is matched loosely (first template path in the message, first integer after it); failures reported by built-in functions (len, isset, map, exec) only need to be errors"),
  "C13": dict(engine="E1", ref="6/C13", technique=E1TECH,
-   text="Try bodies built from every sequence of <=3 (thorough 4) nested frames over 10 frame kinds x failure (none / innermost point / after the innermost frame / end; identifier, error panic, string panic) x 4 catch forms x 3 placements x data present / nil; afterwards the program probes context, variables, catch variable and {{yield content}}; compared byte for byte with the transactional reference.", note=E1NOTE),
+   text="Try bodies built from every sequence of <=3 (thorough 4) nested frames over 10 frame kinds x failure (none / innermost point / after the innermost frame / end; identifier, error panic, string panic) x 4 catch forms x 4 placements (incl. a block whose content fails once while shown inside the try) x data present / nil; afterwards the program probes context, variables, catch variable and {{yield content}}; compared byte for byte with the transactional reference.", note=E1NOTE),
  "C15": dict(engine="E1", ref="6/C15", technique="exhaustive enumeration of name spellings x entry points, replayed on the real Set against a path.Clean reference resolver (recording Loader/Cache)",
    text="Every name spelling of <=4 segments over {a,b,.,..,empty} x relative/absolute x trailing slash, at 9 entry points, from referrers at depth 0-2, under 3 extension lists, with development mode off and on, is run on the real Set with a recording Loader and Cache; the exact request trace must equal the reference resolution. Exhaustive inside that alphabet, nothing outside it.",
    note="trusts path.Join/path.Clean as the definition of 'lexically clean'; backslash spellings excluded (platform dependent)"),
@@ -35,23 +35,23 @@ checks.update({
    text="Under 7 delimiter configurations: every sequence of <=3 (thorough 4) tokens in one action over a 72-token alphabet (incl. non-ASCII digits) (with and without separating spaces), every sequence of <=4 (thorough 5) whole segments over 28 constructs, every byte string of <=3 over 20 bytes in text and action position, every byte prefix and single-token edit of a corpus, and extends/import heads over 8 referenced-template sets (missing, unparsable, chain, self, cycle). The process must survive, return template xor error, name template and an in-range line in syntax errors, leave no goroutine, and reject structurally broken segment sequences.",
    note="the structural recogniser only gives a verdict for the mistakes the statement lists (unterminated action/comment, missing/surplus end, extends/import after content); a hang verdict needs one input alone to exceed the batch timeout three times"),
  "C06": dict(engine="E1", ref="6/C06", technique="bounded exhaustive enumeration of access paths into a fixed universe of Go types, each rendered by the real engine and compared with an independent reflective resolver",
-   text="Every access path of <=2 (thorough 3) steps over a 92-step alphabet (fields, [\"name\"], variable/int/uint/float/nil/bool/undefined indexes, method calls, slices with each bound omitted/in range/out of range/wrong kind) from 11 roots (value, pointer, nil embedded pointer, global, context, early-shadow struct, map, pointer to interface, nil, undefined) into an 8-type universe: stored value rendered, listed failures are errors (never panics), absent map keys are nil.", note="the universe of Go types is hand-written (Go cannot synthesise types with methods at run time); composite terminal values are only required not to fail; pointer-receiver methods on non-addressable values, postfix after a slice, a.b on an absent map key are unspecified"),
+   text="Every access path of <=2 (thorough 3) steps over a 92-step alphabet (fields, [\"name\"], variable/int/uint/float/nil/bool/undefined indexes, method calls, slices with each bound omitted/in range/out of range/wrong kind) from 11 roots (value, pointer, nil embedded pointer, global, context, early-shadow struct, map, pointer to interface, nil, undefined) into a 10-type universe (incl. maps keyed by named string / integer types): stored value rendered, listed failures are errors (never panics), absent map keys are nil.", note="the universe of Go types is hand-written (Go cannot synthesise types with methods at run time); composite terminal values are only required not to fail; pointer-receiver methods on non-addressable values, postfix after a slice, a.b on an absent map key are unspecified"),
  "C10": dict(engine="E2", ref="6/C10", technique="explicit enumeration of Execute histories on one goroutine (pooled Runtime provably reused), each call compared with its own baseline taken on an emptied pool; structural hash of the parsed templates",
-   text="Every history of <=3 (thorough 4) Execute calls over 24 executions (successes, probes for pending content/context/variables/blocks/writer/nested ranges/struct-field cache, failures at every kind of point, error/string/runtime panics, range-else over empty values) with GOMAXPROCS=1 and GC off; every call must equal its baseline on a fresh pool and no parsed template may change.", note="pool reuse is measured (evidence: runtime_reused_in_consecutive_executions); residue that none of the 7 probes can display would go unnoticed"),
+   text="Every history of <=3 (thorough 4) Execute calls over 27 executions (successes, tries abandoned after writing, probes for pending content/context/variables/blocks/writer/nested ranges/struct-field cache, failures at every kind of point, error/string/runtime panics, range-else over empty values) with GOMAXPROCS=1 and GC off; every call must equal its baseline on a fresh pool and no parsed template may change.", note="pool reuse is measured (evidence: runtime_reused_in_consecutive_executions); residue that none of the 7 probes can display would go unnoticed"),
  "C11": dict(engine="E3", ref="6/C11", technique="stateless model checking of the implementation: iteratively preemption-bounded DFS over all interleavings of jet's synchronisation operations (sync shim injected with go build -overlay) and harness callbacks under a cooperative scheduler; linearizability via porcupine; separate free-running -race pass",
-   text="8 closed scenarios of 2-3 threads on one Set (first loads of one template, globals register, two writers of different globals, struct-field cache population for a new type, development mode vs loader edits, Parse extending a template loaded concurrently, two Executes of a rich template, first include from two executions): every schedule with <=2 (thorough 3) preemptions at every RWMutex/sync.Map/sync.Pool operation and harness callback; no deadlock, no panic, serial results, linearizable globals history. Data races proper are covered only by the non-exhaustive -race pass.", note="interleavings inside a critical section and memory-model effects are not explored; the lexer goroutine and its channel are left to the Go runtime (argued deterministic); if the overlay stops compiling the check degrades to the race pass and says so (hooks: off)"),
+   text="8 closed scenarios of 2-3 threads on one Set (first loads of one template, globals register, two writers of different globals, struct-field cache population for a new type, development mode vs loader edits, Parse extending a template loaded concurrently, two Executes of a rich template, first include from two executions): every schedule with <=2 (thorough 3) preemptions at every RWMutex/sync.Map/sync.Pool operation, directly after every Map store and write-unlock (publication) and at every harness callback; no deadlock, no panic, serial results, linearizable globals history. Data races proper are covered only by the non-exhaustive -race pass.", note="interleavings inside a critical section and memory-model effects are not explored; the lexer goroutine and its channel are left to the Go runtime (argued deterministic); if the overlay stops compiling the check degrades to the race pass and says so (hooks: off)"),
  "C14": dict(engine="E1", ref="6/C14", technique="bounded exhaustive enumeration of call shapes, each executed on the real engine and compared with the direct Go invocation (metamorphic equality of all surface forms) and the recorded call log",
    text="9 callable kinds x argument tuples (all accepted spellings incl. conversions and nested calls as arguments, one rejected argument per position, wrong counts) x every surface form (call, prefix, piped, piped prefix, slot at each index in both spellings), chained pipelines with call logs, forms that must be rejected, and ~770 built-in cases against the Go functions they expose.", note="fractional float to integer parameters and exotic conversions are unspecified"),
  "C16": dict(engine="E2", ref="6/C16", technique="explicit-state search (all histories to a depth without merging + BFS over canonical model states) over Set/loader operations; every transition replayed on a fresh real Set against a reference cache machine",
-   text="Per configuration (development mode x custom cache x 6 extension lists; 8 quick, 12 thorough): every history of <=2 (thorough 3) operations over a 35-operation menu and a BFS to depth 4 (thorough 6) over canonical states; success, rendered content, exact loader Exists/Open trace, cache writes where none are allowed, pointer identity, and the remembered-name invariant.", note=E2NOTE+"; under which cache key(s) a template is remembered is not fixed by the statement: the implementation must be consistent with one of 6 key/lookup policies for a whole history"),
+   text="Per configuration (development mode x custom cache x 6 extension lists x 2 start states; 9 quick, 14 thorough): every history of <=2 (thorough 3) operations over a 35-operation menu and a BFS to depth 4 (thorough 6) over canonical states; success, rendered content, exact loader Exists/Open trace, cache writes where none are allowed, pointer identity, and the remembered-name invariant.", note=E2NOTE+"; under which cache key(s) a template is remembered is not fixed by the statement: the implementation must be consistent with one of 6 key/lookup policies for a whole history"),
  "C17": dict(engine="E1", ref="6/C17", technique="same enumeration as C06; isset(p), isset(p,q), p|isset and v,ok lookups on the real engine against the reflective resolver",
    text="isset(p) for every identifier/field/index path of <=2 (thorough 3) steps of the C06 universe, isset(p,q) for every pair of paths of <=1 step (thorough: one side <=2), p|isset, p|isset(_), p|isset(x,_) and p|isset(q) for every p whose evaluation is defined, and v,ok := / = m[k] for 6 maps x 9 keys: never fails, true iff every argument resolves to a non-nil value.", note="isset of call/slice expressions and of literals is unspecified"),
  "C18": dict(engine="E1", ref="6/C18", technique=E1TECH+"; additionally the syntax twin of every API program is executed on the real engine",
    text="Every sequence of <=3 operations over {Let, Set, SetOrLet, LetGlobal, Resolve, MustResolve, Context via the Go API; template :=, =, read} x 7 call sites x 4 variable origins (incl. nil VarMap) x outer declaration (none, a value, nil); YieldBlock for 3 contexts x 3 block homes x 7 sites; Arguments.Get/NumOfArguments/IsSet/ParseInto in every call shape against a reflected function.", note=E1NOTE+"; LetGlobal with a nil VarMap and YieldBlock of blocks with parameters are unspecified"),
  "C19": dict(engine="E2", ref="6/C19", technique="explicit-state search (BFS to fixpoint + all short histories) for the in-memory loader; exhaustive enumeration of directory trees, edit histories and loader stacks on real temp directories for the file-system and multi loaders",
-   text="InMemLoader: BFS over reference states to a fixpoint with Set/Delete in 8 spellings, plus every history of <=2 (thorough 3) operations, every spelling queried after every operation. OS/http loaders: all 121 trees over {a,b} to depth 2 x every clean path of <=3 segments, and every edit history of <=3 (thorough 4) operations. Embed loader: one embedded tree. Multi: all 729 stacks of 3 members x 2 member kinds x 4 ways of assembling, plus every history of <=5 (thorough 6) operations over member Set/Delete, AddLoaders, ClearLoaders and separate Exists / Open calls.", note=E2NOTE+"; the embed loader is checked on one immutable tree; temp directories live under $TMPDIR and are removed"),
+   text="InMemLoader: BFS over reference states to a fixpoint with Set/Delete in 8 spellings, plus every history of <=2 (thorough 3) operations, every spelling queried after every operation. OS/http loaders: all 121 trees over {a,b} to depth 2 x every clean path of <=3 segments, 44 trees with a symbolic link (consistency only: Exists => Open yields the bytes of the file the path leads to), and every edit history of <=3 (thorough 4) operations. Embed loader: one embedded tree. Multi: all 729 stacks of 3 members x 2 member kinds x 4 ways of assembling, plus every history of <=5 (thorough 6) operations over member Set/Delete, AddLoaders, ClearLoaders and separate Exists / Open calls.", note=E2NOTE+"; the embed loader is checked on one immutable tree; temp directories live under $TMPDIR and are removed"),
  "C20": dict(engine="E4", ref="6/C20", technique="bounded exhaustive enumeration of grammar-generated templates, parsed by the real parser and walked in crash-isolated workers, against a reflective traversal by pointer identity",
-   text="Every production (35 statement, 48 expression) in every slot of every production, and a third level below, = 249k templates the parser accepts; every statement/expression node must be handed to a descending visitor exactly once, containers at most once, no nil or foreign node, termination.", note="containers (ListNode, PipeNode, CommandNode, SetNode, parameter lists, catch) are only required not to be visited twice"),
+   text="Every production (39 statement, 48 expression) in every slot of every production, and a third level below, = 303k templates the parser accepts; every statement/expression node must be handed to a descending visitor exactly once, containers at most once, no nil or foreign node, termination.", note="containers (ListNode, PipeNode, CommandNode, SetNode, parameter lists, catch) are only required not to be visited twice"),
 })
 not_built = {}
 ids = ["C%02d" % i for i in range(1, 21)]
